@@ -56,9 +56,11 @@ func main() {
 		c := keysim.CheckConfig{Prop: prop, Tier: tier, Seed: seed, Self: self, Root: root, TreeHash: os.Getenv("VERIF_TREE_HASH"),
 			Workers: envInt("VERIF_WORKERS", 16), MaxReported: 3}
 		if tier == "thorough" {
+			c.EpisodeLimitS = envInt("VERIF_EPISODE_LIMIT_S", 30*60)
 			c.WatchdogS = envInt("VERIF_WATCHDOG_S", 3*3600)
 			c.BudgetS = envInt("VERIF_BUDGET_S", 40*60)
 		} else {
+			c.EpisodeLimitS = envInt("VERIF_EPISODE_LIMIT_S", 150)
 			c.WatchdogS = envInt("VERIF_WATCHDOG_S", 20*60)
 			c.BudgetS = envInt("VERIF_BUDGET_S", 0)
 		}
@@ -68,7 +70,11 @@ func main() {
 		w, _ := strconv.Atoi(os.Args[5])
 		nw, _ := strconv.Atoi(os.Args[6])
 		dl, _ := strconv.ParseInt(os.Args[7], 10, 64)
-		keysim.Worker(os.Args[2], os.Args[3], seed, w, nw, dl)
+		from := 0
+		if len(os.Args) > 8 {
+			from, _ = strconv.Atoi(os.Args[8])
+		}
+		keysim.Worker(os.Args[2], os.Args[3], seed, w, nw, dl, from)
 	case "replay-raw":
 		if err := keysim.ReplayRaw(os.Args[2]); err != nil {
 			fmt.Fprintln(os.Stderr, err)
